@@ -178,6 +178,10 @@ def _cases(tier):
         cases.append(S.SimCase(["p0", "p1"], reaction=(1, "r")))
     # an already-cancelled order in the active list must be skipped
     cases.append(S.SimCase(["p0", "p1"], inactive=[0]))
+    # a one-for-one replacement from the fill hook (a trailing stop: cancel one order, submit one - the number of active orders drops
+    # by exactly the filled one): the new order must be a candidate for the rest of the minute.  The replaced order rests below the
+    # candle, so the path reference needs no notion of cancellation
+    cases.append(S.SimCase(["p0", "p1"], reaction=(0, "r"), extra_cons=[("p1", "<", "l")], replaces=1))
     return cases
 
 
@@ -218,7 +222,7 @@ def run_all(repo: Repo, tier: str, fast: bool = False):
             rsyms = list(case.reaction[1]) if isinstance(case.reaction[1], (list, tuple)) else [case.reaction[1]]
         syms = ["o", "c", "h", "l"] + case.order_prices + rsyms
         ranks = list(weak_orderings(syms, CANDLE_CONS + list(case.extra_cons)))
-        spec = (case.order_prices, case.reaction, case.inactive, case.extra_cons)
+        spec = (case.order_prices, case.reaction, case.inactive, case.extra_cons, case.replaces)
         chunk = max(1, len(ranks) // 64)
         for i in range(0, len(ranks), chunk):
             jobs.append((repo.root, spec, ranks[i:i + chunk], fast))
